@@ -15,14 +15,14 @@ assert rc == 0, out
 res = {"property": pid, "name": name}
 try:
     # demo on the unchanged tree
-    rc, out = sh("/tmp/seedtools/bt.sh %s" % wt, timeout=3600)
+    rc, out = sh("/tmp/seedtools/bt.sh %s %s" % (wt, os.environ.get("SEED_BT_TARGETS", "")), timeout=5400)
     res["pinned_unchanged"] = out.strip().split("\n")[-1]
     rc0, out0 = sh("bash %s/run_demo.sh %s_b/src_mirror %s_b/build/src" % (vdir, wt, wt), timeout=3600)
     res["demo_unchanged_rc"] = rc0
     rc, out = sh("git -C %s apply %s/patch.diff" % (wt, vdir))
     res["patch_applies"] = rc == 0
     assert rc == 0, out
-    rc, out = sh("/tmp/seedtools/bt.sh %s" % wt, timeout=3600)
+    rc, out = sh("/tmp/seedtools/bt.sh %s %s" % (wt, os.environ.get("SEED_BT_TARGETS", "")), timeout=5400)
     res["pinned_changed"] = out.strip().split("\n")[-1]
     rc1, out1 = sh("bash %s/run_demo.sh %s_b/src_mirror %s_b/build/src" % (vdir, wt, wt), timeout=3600)
     res["demo_changed_rc"] = rc1
